@@ -323,11 +323,147 @@ def history_steps(rng, insts, tags, offgrid):
             state[k].pop('ctranspose')
             st.pop('ctranspose', None)
             dl.append('ctranspose')
-        steps.append({'wait': wait, 'event': dict(state[k]), 'how': 'object',
-                      'obj': k, 'op': op, 'src': src, 'set': st, 'del': dl,
-                      'prev_tags': list(lineage[k])})
+        step = {'wait': wait, 'event': dict(state[k]), 'how': 'object',
+                'obj': k, 'op': op, 'src': src, 'set': st, 'del': dl,
+                'prev_tags': list(lineage[k])}
+        # which dict method performs the edit, whether the object is looked
+        # up (event(key)) before the edit and between the edit and the play,
+        # how a copy is made: every combination must play the keys the object
+        # holds at the play
+        step['mut'] = rng.choice(PLAY_MUTATORS)
+        step['peek'] = rng.random() < 0.6
+        step['peek_after'] = rng.random() < 0.5
+        if op == 'copy':
+            step['copy_how'] = rng.choice(COPY_HOWS)
+        steps.append(step)
         lineage[k].append(st['tag'])
     return steps
+
+
+# edits of an event object that was played before (it then also holds the keys
+# play() wrote: server, group, node_id, msg_params, has_gate, is_playing ...):
+#   update/pop   e.pop(k) ...; e.update(dict)
+#   setitem      del e[k] ...; e[k] = v ...
+#   update-kw    e.pop(k) ...; e.update(**kw)
+#   update-pairs e.pop(k) ...; e.update([(k, v) ...])
+#   ior          e.pop(k) ...; e |= dict
+#   setdefault   e.pop(k) for the deleted AND the assigned keys;
+#                e.setdefault(k, v) ...
+#   clear-update e.clear(); e.update(all keys the object defines now)
+PLAY_MUTATORS = ['update/pop', 'update/pop', 'setitem', 'update-kw',
+                 'update-pairs', 'ior', 'setdefault', 'clear-update']
+COPY_HOWS = ['copy', 'copy', 'copy.copy', 'event(e)', 'type(e)(e)']
+
+# edits of an event object that was only looked up (chain monitor)
+CHAIN_MUTATORS = ['setitem', 'delitem', 'update-dict', 'update-kw',
+                  'update-pairs', 'ior', 'pop', 'pop-default', 'popitem',
+                  'setdefault', 'clear', 'clear-update',
+                  'update-dict', 'pop', 'setdefault', 'ior']
+DERIVES = ['copy', 'copy.copy', 'event(e)', 'event(e,**kw)', 'event(e|d)',
+           'type(e)(e)', 'event(**e)']
+
+
+def _chain_edit(rng, ev, offgrid):
+    """(set, delete) for one edit of an event that is looked up before and
+    after: keys of the three chains, single keys or whole new key sets."""
+    st, dl = {}, []
+    for _ in range(rng.randint(1, 3)):
+        what = rng.choice(['pitch', 'pitch1', 'pitch1', 'amp', 'dur', 'dur1',
+                           'delete', 'delete', 'delete-source'])
+        if what == 'pitch':
+            new = pitch_keys(rng, scale_p=0.25)
+            st.update(new)
+        elif what == 'pitch1':
+            k = rng.choice(['degree', 'degree', 'mtranspose', 'octave', 'root',
+                            'gtranspose', 'ctranspose', 'midinote', 'note',
+                            'freq'])
+            st[k] = {'degree': lambda: _numv(rng, list(range(-14, 22)), 0.2),
+                     'mtranspose': lambda: _numv(rng, list(range(-7, 8)), 0.2),
+                     'octave': lambda: _numv(rng, [2, 3, 4, 4.5, 6, 7]),
+                     'root': lambda: _numv(rng, [-2, 1, 2.5, 3, 5]),
+                     'gtranspose': lambda: _numv(rng, [-3, -1, 0.5, 1, 2, 7]),
+                     'ctranspose': lambda: _numv(rng, [-12, -1, -0.5, 1, 7]),
+                     'midinote': lambda: _numv(rng, [36, 48.5, 57, 61, 72, 84]),
+                     'note': lambda: _numv(rng, [-12, -5, 1, 3.5, 7, 14.25]),
+                     'freq': lambda: _numv(rng, [55, 110.5, 333.3, 1234.5]),
+                     }[k]()
+        elif what == 'amp':
+            st.update(amp_keys(rng))
+        elif what == 'dur':
+            st.update(dur_keys(rng, offgrid))
+        elif what == 'dur1':
+            k = rng.choice(['dur', 'stretch', 'legato'])
+            st[k] = _numv(rng, {'dur': OFF_DUR if offgrid else GRID_DUR,
+                                'stretch': STRETCH, 'legato': LEGATO}[k], 0.3)
+        elif what == 'delete-source':
+            # the key that wins now: the next one of the chain takes over
+            for k in ('freq', 'midinote', 'note', 'degree', 'amp', 'db',
+                      'velocity', 'delta', 'sustain', 'dur'):
+                if k in ev and k not in dl and rng.random() < 0.6:
+                    dl.append(k)
+                    break
+        else:
+            cand = [k for k in ev if k not in dl]
+            if cand:
+                dl.append(rng.choice(cand))
+    if rng.random() < 0.06 and st:
+        k = rng.choice([k for k in st if k != 'scale'] or ['dur'])
+        st[k] = {'rest': num_or(st.get(k), 1.0)}
+    dl = [k for k in dict.fromkeys(dl) if k not in st]
+    return st, dl
+
+
+def num_or(v, default):
+    return me.num(v) if v is not None else default
+
+
+def chain_history(rng, ev, offgrid):
+    """History of one event object in the chain monitor: 1-4 edits, each by
+    one dict method (or a new object derived from it, which is then the
+    object under test), each followed by the look-ups.  Returns the list of
+    ops ({'m', 'set', 'del', 'n'} or {'m': 'derive', 'how', 'set'}); the model
+    state after each op is me.apply_mutation applied in turn."""
+    ops, cur = [], dict(ev)
+    for _ in range(rng.randint(1, 4)):
+        st, dl = _chain_edit(rng, cur, offgrid)
+        if rng.random() < 0.2:
+            op = {'m': 'derive', 'how': rng.choice(DERIVES), 'set': {},
+                  'del': []}
+            if op['how'] in ('event(e,**kw)', 'event(e|d)'):
+                op['set'] = st
+            ops.append(op)
+            cur = me.apply_mutation(cur, {'m': 'update-dict',
+                                          'set': op['set']})
+            if not op['set']:
+                # an edit of the derived object; the source must not change
+                op = {'m': rng.choice(['setitem', 'update-dict', 'ior',
+                                       'setdefault']), 'set': st, 'del': []}
+                ops.append(op)
+                cur = me.apply_mutation(cur, op)
+            continue
+        m = rng.choice(CHAIN_MUTATORS)
+        op = {'m': m, 'set': st, 'del': dl}
+        if m in ('delitem', 'pop', 'pop-default'):
+            op['set'] = {}
+            if not dl:
+                op['del'] = [rng.choice(list(cur))] if cur else []
+            if m == 'pop-default':
+                op['del'] = op['del'] + ['c14_absent_key']
+        elif m == 'popitem':
+            op['n'] = rng.randint(1, 3)
+            op['del'] = []
+            if rng.random() < 0.5:
+                op['set'] = {}
+        elif m == 'clear':
+            op['set'], op['del'] = {}, []
+        elif m == 'clear-update':
+            op['del'] = []
+        elif m != 'setitem':
+            # (update / |= / setdefault do not delete: one method per op)
+            op['del'] = []
+        ops.append(op)
+        cur = me.apply_mutation(cur, op)
+    return ops
 
 
 def play_program(rng, insts, tags):
@@ -405,6 +541,14 @@ def pbind_spec(rng, insts, tags, offgrid=False, rests=True, timing=True,
     n = rng.randint(1, 6)
     durs = OFF_DUR if offgrid else GRID_DUR
     rp = 0.15 if rests and rng.random() < 0.5 else 0.0
+    # where Rest objects may sit: `op` in the duration / pitch source columns
+    # (the usual way of writing a rest), `rp` in every other numeric column
+    # (amp, db, pan, an instrument control, legato, stretch, sustain, detune,
+    # the transpositions ...: Rest help - a Rest in ANY key makes the event a
+    # rest).  scope: both / only the usual keys / only the other keys
+    scope = rng.choice(['any', 'any', 'classic', 'other'])
+    op = 0.0 if scope == 'other' else rp
+    rp, op = (0.0 if scope == 'classic' else rp), op
     m = {}
     if not mono:
         m['instrument'] = (rng.choice(insts)['name'] if rng.random() < 0.7 else
@@ -414,14 +558,16 @@ def pbind_spec(rng, insts, tags, offgrid=False, rests=True, timing=True,
     m['tag'] = _as_pattern(rng, tg)
     if timing:
         if rng.random() < 0.85:
-            m['dur'] = _column(rng, n, durs, 0.3, rp)
+            m['dur'] = _column(rng, n, durs, 0.3, op)
         if rng.random() < 0.25:
-            m['stretch'] = _column(rng, n, STRETCH, 0.6)
+            m['stretch'] = _column(rng, n, STRETCH, 0.6, rp)
         if rng.random() < 0.3:
-            m['legato'] = _column(rng, n, LEGATO, 0.5)
+            m['legato'] = _column(rng, n, LEGATO, 0.5, rp)
         if rng.random() < 0.1:
-            m['sustain'] = _column(rng, n, [0.125, 0.5, 1, 2.5], 0.5)
+            m['sustain'] = _column(rng, n, [0.125, 0.5, 1, 2.5], 0.5, rp)
         if rng.random() < 0.08:
+            # (no Rest objects in delta: Ppar and Pdur rewrite the delta of
+            # the events that pass through them)
             m['delta'] = _column(rng, n, [0, 0.25, 0.5, 1], 0.3)
     if pitch:
         src = rng.choice(['degree', 'degree', 'midinote', 'freq', 'note', 'none'])
@@ -429,32 +575,38 @@ def pbind_spec(rng, insts, tags, offgrid=False, rests=True, timing=True,
             fr = rng.random() < 0.15
             m['degree'] = _column(rng, n, list(range(-7, 15)) + (
                 [1.1, 3.9, -2.1, 6.2, 0.5, 2.5, 3.5, -1.5, -2.5] if fr else []),
-                0.2, rp)
+                0.2, op)
             if not fr and rng.random() < 0.2:
-                m['ctranspose'] = _column(rng, n, [-12, 0.5, 7], 0.5)
+                m['ctranspose'] = _column(rng, n, [-12, 0.5, 7], 0.5, rp)
             if rng.random() < 0.3:
-                m['mtranspose'] = _column(rng, n, [-2, -1, 1, 3], 0.5)
+                m['mtranspose'] = _column(rng, n, [-2, -1, 1, 3], 0.5, rp)
             if rng.random() < 0.3:
-                m['octave'] = _column(rng, n, [3, 4, 5, 6], 0.5)
+                m['octave'] = _column(rng, n, [3, 4, 5, 6], 0.5, rp)
         elif src == 'midinote':
-            m['midinote'] = _column(rng, n, [48, 55, 60, 61.5, 64, 67, 72], 0.2, rp)
+            m['midinote'] = _column(rng, n, [48, 55, 60, 61.5, 64, 67, 72], 0.2, op)
             if rng.random() < 0.3:
-                m['ctranspose'] = _column(rng, n, [-12, 0.5, 7], 0.5)
+                m['ctranspose'] = _column(rng, n, [-12, 0.5, 7], 0.5, rp)
         elif src == 'freq':
-            m['freq'] = _column(rng, n, [110, 220.5, 330, 440, 880], 0.2, rp)
+            m['freq'] = _column(rng, n, [110, 220.5, 330, 440, 880], 0.2, op)
         elif src == 'note':
-            m['note'] = _column(rng, n, [-5, 0, 2, 4.5, 7, 12], 0.2, rp)
+            m['note'] = _column(rng, n, [-5, 0, 2, 4.5, 7, 12], 0.2, op)
         if src != 'freq' and rng.random() < 0.2:
-            m['harmonic'] = _column(rng, n, [1, 2, 3, 0.5], 0.5)
+            m['harmonic'] = _column(rng, n, [1, 2, 3, 0.5], 0.5, rp)
         if rng.random() < 0.2:
-            m['detune'] = _column(rng, n, [-3, 0.5, 4], 0.5)
+            m['detune'] = _column(rng, n, [-3, 0.5, 4], 0.5, rp)
     if rng.random() < 0.3:
-        m['amp'] = _column(rng, n, [0.05, 0.1, 0.3, 1], 0.4)
+        m['amp'] = _column(rng, n, [0.05, 0.1, 0.3, 1], 0.4, rp)
     elif rng.random() < 0.2:
-        m['db'] = _column(rng, n, [-40, -20, -6, 0], 0.4)
+        m['db'] = _column(rng, n, [-40, -20, -6, 0], 0.4, rp)
     for name in ('pan', 'foo', 'bar', 'cutoff', 'out', 'index', 'zork'):
         if rng.random() < 0.25:
-            m[name] = _column(rng, n, [-1, 0, 1, 0.25, 7.5, 2], 0.5)
+            m[name] = _column(rng, n, [-1, 0, 1, 0.25, 7.5, 2], 0.5, rp)
+    if rp and rng.random() < 0.04:
+        # a constant Rest in a key that is no duration / pitch key ('pan':
+        # Rest()): the whole line is silent, its timing counts
+        k = rng.choice(['pan', 'amp', 'foo', 'zork', 'legato'])
+        m.pop('db', None)
+        m[k] = {'rest': rng.choice([0, 0.25, 1])}
     if not mono and rng.random() < 0.15:
         m['add_action'] = rng.choice(['addToTail', 't', 1, 'addToHead', 0])
     if not mono and rng.random() < 0.15:
@@ -468,13 +620,17 @@ def pmono_spec(rng, insts, tags, offgrid=False, rests=True):
 
 
 def _chain_left(rng, n, constant):
+    """Left operand of a Pchain; a third of the varying ones hold Rest objects
+    (in keys that are neither duration nor pitch source keys): the chained
+    event is a rest whichever operand gave the Rest."""
     m = {}
+    rp = 0.15 if rng.random() < 0.35 else 0.0
     for name in rng.sample(['pan', 'foo', 'bar', 'amp', 'cutoff', 'zork',
                             'legato', 'detune'], rng.randint(1, 3)):
         choices = {'amp': [0.05, 0.2, 1], 'legato': [0.5, 1, 0.25],
                    'detune': [-3, 0.5, 4]}.get(name, [-1, 0, 1, 0.25, 7.5, 2])
         m[name] = (rng.choice(choices) if constant
-                   else _column(rng, n, choices, 0.3, 0.0, 0.5))
+                   else _column(rng, n, choices, 0.3, rp, 0.5))
     return ['pbind', m]
 
 
@@ -789,7 +945,7 @@ def timeline_case(rng, insts, tags):
         return reuse_case(rng, insts, tags)
     offgrid = rng.random() < 0.25
     comp = composition(rng, insts, tags, offgrid)
-    return {
+    case = {
         'pattern': comp, 'offgrid': offgrid,
         'latency': rng.choice([0, 0, 0.05, 0.2, 0.25, 0.015625, 1]),
         'where': rng.choice(['main', 'main', 'routine-system', 'routine-tempo']),
@@ -797,3 +953,8 @@ def timeline_case(rng, insts, tags):
         'start': rng.choice(OFF_DUR if offgrid else [0.25, 1, 2.5, 0.0625]),
         'proto': rng.choice([None, None, 'event']),
     }
+    if rng.random() < 0.03:
+        # the player's prototype event holds a Rest (in a key no pattern
+        # sets): every event of the stream is a rest, the timing is kept
+        case['proto'] = 'event-rest'
+    return case
